@@ -19,7 +19,7 @@ m = {
         "name": "kgv",
         "path": "/verif/kgv",
         "serves_properties": [c["property_id"] for c in checks["claimed"]],
-        "kind_free_text": "repository-specific static analyser over go/packages + go/ssa (x/tools v0.29.0): dominance/must-pass-through, guard (control-dependence) queries, value-origin slicing, lock regions, interval bounds, shape enumeration, who-may-call/who-may-write scans; no code of /repo is executed",
+        "kind_free_text": "repository-specific static analyser over go/packages + go/ssa (x/tools v0.29.0): dominance/must-pass-through, guard (control-dependence) queries, value-origin slicing, lock regions, interval bounds, shape enumeration, who-may-call/who-may-write scans, forcing by path-enumerating abstract interpretation (calls/loads pinned, CFG paths of the source enumerated with an event log), calling contexts through helpers; thorough tier adds the neighbourhood sweep (the same rules on scratch copies of the current tree with each kept seeded change / refactoring applied); no code of /repo is executed",
     }],
     "checks": [],
     "notes": checks.get("notes", ""),
